@@ -242,7 +242,10 @@ pub fn check_json(c: &JsonCase, ctx: &mut Ctx) -> CheckResult {
     })
     .map_err(|p| format!("solve panicked: {p}"))?;
     ctx.sub_evals += 2;
-    let (a, b) = (verdict(o1.status), verdict(o2.status));
+    // only full-accuracy verdicts are compared across the two (rounding-different) copies: an Almost* status is
+    // whatever the reduced test says about the iterate a stalled run happened to stop at, and flips with one ulp
+    let full = |s: SolverStatus| if matches!(s, SolverStatus::Solved | SolverStatus::PrimalInfeasible | SolverStatus::DualInfeasible) { verdict(s) } else { Verdict::None };
+    let (a, b) = (full(o1.status), full(o2.status));
     // (a problem with arbitrary data can be primal and dual infeasible at once, where either certificate is a
     // correct answer; a contradiction is only declared between "solved" and "infeasible", or on planted problems)
     let both_infeasible_kinds = a != Verdict::Solved && b != Verdict::Solved;
